@@ -361,7 +361,12 @@ main()
 		c.Rep.Count(fmt.Sprintf("script-argc-%d", argc))
 		// host calls script: every requested result count
 		for xr := 0; xr <= 3; xr++ {
-			rets, err := vm.Call("main.twoRes", xr, goat.Int(3), goat.Int(4))
+			// the parameters are a sub-slice of a longer buffer of the host's: the call must leave the buffer alone
+			buf := []goat.Value{goat.Int(3), goat.Int(4), goat.Int(99), goat.Int(98)}
+			rets, err := vm.Call("main.twoRes", xr, buf[:2]...)
+			if buf[0].Int() != 3 || buf[1].Int() != 4 || buf[2].Int() != 99 || buf[3].Int() != 98 {
+				c.Rep.Violate(Violation{Kind: "oracle", Cut: "host-calls-script", Input: fmt.Sprintf("Call twoRes xRets=%d with params = buf[:2] of a 4-value buffer", xr), Impl: fmt.Sprintf("buffer afterwards: %v %v %v %v", buf[0], buf[1], buf[2], buf[3]), Oracle: "3 4 99 98"})
+			}
 			c.Rep.Oracle["host-calls-script"]++
 			wantR := []string{"4", "3"}
 			switch {
